@@ -11,6 +11,7 @@ import (
 	"os"
 	"os/exec"
 	"path/filepath"
+	"runtime/pprof"
 	"sort"
 	"strings"
 	"time"
@@ -246,7 +247,13 @@ func cmdCheck(args []string) int {
 	noReplay := fs.Bool("noreplay", false, "skip native replay of counterexamples")
 	noEvidence := fs.Bool("noevidence", false, "do not write the evidence file")
 	solverLog := fs.String("solverlog", "", "write worker 0's SMT-LIB stream here")
+	cpuprof := fs.String("cpuprofile", "", "write a CPU profile")
 	fs.Parse(args)
+	if *cpuprof != "" {
+		f, _ := os.Create(*cpuprof)
+		pprof.StartCPUProfile(f)
+		defer pprof.StopCPUProfile()
+	}
 	start := time.Now()
 	seed := 0
 	fmt.Sscan(os.Getenv("VERIF_SEED"), &seed)
@@ -611,7 +618,7 @@ func TestVerifReplay(t *testing.T) {
 	writeJSON(ovJSON, map[string]interface{}{"Replace": ovPaths})
 	cmd := exec.Command("go", "test", "-tags", "verif verifnative", "-vet=off", "-count=1", "-overlay", ovJSON, "-run", "^TestVerifReplay$", "-v", "./"+spec.Dir)
 	cmd.Dir = repoDir
-	cmd.Env = append(os.Environ(), "GOFLAGS=-mod=mod", "GOPROXY=off", "GOSUMDB=off", "GOTOOLCHAIN=local", "VERIF_REPLAY="+replayPath, "GOCACHE="+filepath.Join(verifDir, ".gocache"))
+	cmd.Env = append(os.Environ(), "GOFLAGS=-mod=mod", "GOPROXY=off", "GOSUMDB=off", "GOTOOLCHAIN=local", "VERIF_REPLAY="+replayPath)
 	var out bytes.Buffer
 	cmd.Stdout = &out
 	cmd.Stderr = &out
